@@ -604,6 +604,7 @@ func CheckC15(c *Ctx) {
 	run.Count("bounds_proved", proved)
 	run.Floor("indicators", len(RangeClaims))
 	c.stdNonNegative()
+	c.rangeLimits()
 	// the axiom MovingMin(x) <= x <= MovingMax(x) rests on the window closures inserting every new
 	// value exactly once, removing only the value that left, and returning the tree's extreme
 	c.windowExtremes()
